@@ -7,6 +7,8 @@ block itself (names, order, bonds; elements given explicitly as a PDB does).  El
   swap-order(i,j)   exchange two atoms in node order
   rename(i)         give one atom a fresh name
   delete(i)         remove one atom (a non-cut atom, so the residue stays connected)
+  strip-h           remove all hydrogens (the usual content of a PDB file); also combined with every other deviation
+  delete-heavy(i[,j]) remove one heavy atom, or two bonded heavy atoms, together with the hydrogens they carry
   delete-pair(i,j)  remove two ADJACENT atoms (a gap with known atoms on both sides) where the rest stays connected
   attach(i,E)       attach one extra atom of element E in {H, O, C} to a heavy atom
 EVERY presentation with 0, then 1 (then 2) deviations of EVERY block of the chosen force fields is
@@ -71,6 +73,13 @@ def apply_deviations(names, elements, edges, devs):
         elif kind == 'delete-pair':
             deleted.add(dev[1])
             deleted.add(dev[2])
+        elif kind == 'strip-h':
+            deleted.update(i for i in range(n) if elements[i] == 'H')
+        elif kind == 'delete-heavy':
+            # heavy atoms go missing together with the hydrogens they carry
+            for heavy in dev[1:]:
+                deleted.add(heavy)
+                deleted.update(j for a, b in edges for i, j in ((a, b), (b, a)) if i == heavy and elements[j] == 'H')
         elif kind == 'attach':
             attached.append((dev[1], dev[2]))
         elif kind == 'permute-names':
@@ -78,12 +87,11 @@ def apply_deviations(names, elements, edges, devs):
             cur_names = [names[perm[i]] for i in range(n)]
         else:
             raise common.HarnessError('unknown deviation %r' % (dev,))
+    attached = [(anchor, element) for anchor, element in attached if anchor not in deleted]
     atoms = [(cur_names[i], elements[i], i) for i in order if i not in deleted]
     pos = {origin: p for p, (_, _, origin) in enumerate(atoms)}
     pres_edges = [(pos[a], pos[b]) for a, b in edges if a in pos and b in pos]
     for k, (anchor, element) in enumerate(attached):
-        if anchor in deleted:
-            continue
         atoms.append(('%sX%d' % (element, k + 1), element, None))
         pres_edges.append((pos[anchor], len(atoms) - 1))
     n_attached = sum(1 for a in atoms if a[2] is None)
@@ -97,7 +105,7 @@ def check(ffname, blockname, devs, acc, sample=False):
     ff = load_ff(ffname)
     block = ff.blocks[blockname]
     names, elements, edges = block_info(block)
-    case = {'ff': ffname, 'block': blockname, 'deviations': [list(d) if not isinstance(d[1], tuple) else [d[0], list(d[1])] for d in devs]}
+    case = {'ff': ffname, 'block': blockname, 'deviations': [[d[0], list(d[1])] if d[0] == 'permute-names' else list(d) for d in devs]}
     atoms, pres_edges, n_attached, deleted = apply_deviations(names, elements, edges, devs)
     mol = vermouth.molecule.Molecule(force_field=ff)
     for key, (name, element, _) in enumerate(atoms):
@@ -177,6 +185,16 @@ def single_deviations(names, elements, edges, tier):
         if elements[i] != 'H':
             for element in ('H', 'O', 'C'):
                 devs.append(('attach', i, element))
+    heavy = [i for i in range(n) if elements[i] != 'H']
+    skeleton = graph.subgraph(heavy)
+    for i in heavy:
+        rest = skeleton.subgraph(set(heavy) - {i})
+        if len(rest) >= 1 and nx.is_connected(rest):
+            devs.append(('delete-heavy', i))
+    for i, j in skeleton.edges:
+        rest = skeleton.subgraph(set(heavy) - {i, j})
+        if len(rest) >= 1 and nx.is_connected(rest):
+            devs.append(('delete-heavy', i, j))
     # a gap of two ADJACENT missing atoms whose removal leaves the rest of the residue connected
     for i, j in edges:
         rest = graph.subgraph(set(range(n)) - {i, j})
@@ -191,6 +209,15 @@ def block_tasks(ffname, blockname, tier, depth):
     singles = single_deviations(names, elements, edges, tier)
     out = [()]
     out.extend((d,) for d in singles)
+    if 'H' in elements:
+        out.append((('strip-h',),))
+        for d in singles:
+            touched = [x for x in d[1:] if isinstance(x, int)]
+            if d[0] in ('delete-pair',) or any(elements[x] == 'H' for x in touched):
+                continue
+            if d[0] == 'attach' and d[2] == 'H':
+                continue
+            out.append((('strip-h',), d))
     if len(names) <= 7:
         for perm in itertools.permutations(range(len(names))):
             out.append((('permute-names', perm),))
@@ -211,13 +238,13 @@ def block_tasks(ffname, blockname, tier, depth):
     return out
 
 
-def check_pair(ffname, first, second, naming, acc, sample=False):
+def check_pair(ffname, first, second, naming, acc, sample=False, heavy_only=False):
     """Two residues in ONE molecule (they share whatever the repair keeps per molecule), bonded C-N when both have
     these atoms.  naming: 'canonical' | 'junk' (every atom called X<k>) | 'none' (no atom names at all)."""
     import vermouth
     from vermouth.processors.repair_graph import RepairGraph
     ff = load_ff(ffname)
-    case = {'layer': 'pairs', 'ff': ffname, 'first': first, 'second': second, 'naming': naming}
+    case = {'layer': 'pairs', 'ff': ffname, 'first': first, 'second': second, 'naming': naming, 'heavy_only': heavy_only}
     mol = vermouth.molecule.Molecule(force_field=ff)
     key = 0
     info = []
@@ -225,7 +252,11 @@ def check_pair(ffname, first, second, naming, acc, sample=False):
     for resid, blockname in enumerate((first, second), start=1):
         names, elements, edges = block_info(ff.blocks[blockname])
         base = key
+        local = {}
         for idx, (name, element) in enumerate(zip(names, elements)):
+            if heavy_only and element == 'H':
+                continue
+            local[idx] = key
             attrs = {'element': element, 'resname': blockname, 'resid': resid, 'chain': 'A'}
             if naming == 'canonical':
                 attrs['atomname'] = name
@@ -235,7 +266,7 @@ def check_pair(ffname, first, second, naming, acc, sample=False):
             if name in ('C', 'N'):
                 link[(resid, name)] = key
             key += 1
-        mol.add_edges_from((base + a, base + b) for a, b in edges)
+        mol.add_edges_from((local[a], local[b]) for a, b in edges if a in local and b in local)
         info.append((blockname, names, elements, edges, base))
     if (1, 'C') in link and (2, 'N') in link:
         mol.add_edge(link[(1, 'C')], link[(2, 'N')])
@@ -252,8 +283,9 @@ def check_pair(ffname, first, second, naming, acc, sample=False):
         flagged = [d.get('atomname') for _, d in nodes if d.get('PTM_atom')]
         got_names = sorted(str(d.get('atomname')) for _, d in nodes if not d.get('PTM_atom'))
         if flagged or len(nodes) != len(names):
-            problems.append(('c04:pair-spurious-unrecognised', 'residue %d (%s, after %s): the input IS the block, yet %d atoms are marked '
-                             'unrecognised and %d atoms were added' % (resid, blockname, first if resid == 2 else '-', len(flagged), len(nodes) - len(names))))
+            problems.append(('c04:pair-spurious-unrecognised', 'residue %d (%s, after %s): the input is an induced part of the block, yet %d atoms '
+                             'are marked unrecognised and the residue has %d atoms instead of %d' % (
+                                 resid, blockname, first if resid == 2 else '-', len(flagged), len(nodes), len(names))))
             break
         if got_names != sorted(names):
             problems.append(('c04:pair-names', 'residue %d (%s): names after repair %r, block has %r' % (resid, blockname, got_names, sorted(names))))
@@ -280,8 +312,8 @@ def work(task):
     common.bind_repo()
     if task[0] == 'pairs':
         acc = Acc()
-        for n, (ffname, first, second, naming) in enumerate(task[1]):
-            check_pair(ffname, first, second, naming, acc, sample=(n % 101 == 0))
+        for n, (ffname, first, second, naming, heavy_only) in enumerate(task[1]):
+            check_pair(ffname, first, second, naming, acc, sample=(n % 101 == 0), heavy_only=heavy_only)
         return acc
     ffname, blockname, devs_list = task
     acc = Acc()
@@ -328,9 +360,11 @@ def run(ctx):
     ctx.layer('presentations', acc)
     # every ordered pair of heavy-atom-sized blocks in one molecule, three namings
     amber = sorted(load_ff('amber').blocks)
-    pairs = [('amber', a, b, naming) for a in amber for b in amber for naming in ('junk', 'none')
-             if ctx.tier != 'quick' or (len(load_ff('amber').blocks[a]) <= 17 and len(load_ff('amber').blocks[b]) <= 17)]
-    pairs += [('amber', a, b, 'canonical') for a in amber[::3] for b in amber[::4]]
+    pairs = [('amber', a, b, naming, False) for a in amber for b in amber for naming in ('junk', 'none')
+             if ctx.tier != 'quick' or (len(load_ff('amber').blocks[a]) <= 14 and len(load_ff('amber').blocks[b]) <= 14)]
+    # heavy atoms only (the usual content of a PDB file): every ordered pair
+    pairs += [('amber', a, b, naming, True) for a in amber for b in amber for naming in ('junk', 'none')]
+    pairs += [('amber', a, b, 'canonical', h) for a in amber[::3] for b in amber[::4] for h in (False, True)]
     acc = Acc()
     for part in common.pmap(work, [('pairs', chunk) for chunk in common.chunked(pairs, 24)]):
         acc += part
@@ -341,7 +375,7 @@ def replay(case):
     common.bind_repo()
     acc = Acc()
     if case.get('layer') == 'pairs':
-        check_pair(case['ff'], case['first'], case['second'], case['naming'], acc)
+        check_pair(case['ff'], case['first'], case['second'], case['naming'], acc, heavy_only=case.get('heavy_only', False))
         return [(s, d) for s, d, _ in acc.violations]
     devs = tuple((d[0], tuple(d[1])) if d[0] == 'permute-names' else tuple(d) for d in case['deviations'])
     check(case['ff'], case['block'], devs, acc)
